@@ -43,7 +43,7 @@ Proof.
   rewrite I2, I3, I4 in *. simpl. repeat split; try assumption; try reflexivity.
   - rewrite I5 in E3. destruct (sel_sens l); injection E3 as <-; reflexivity.
   - rewrite I6 in E2. destruct (sel_policy l); injection E2 as <-; reflexivity.
-  - rewrite I7 in E1. unfold mask_list. destruct (sel_mask l); injection E1 as <-; reflexivity.
+  - rewrite I7 in E1. unfold mask_list. destruct (sel_mask l); cbv beta iota zeta in E1; congruence.
 Qed.
 
 Lemma names_roundtrip : forall l k, names_in (names_out k l) = l.
@@ -57,19 +57,19 @@ Proof.
   induction l as [|t l IH]; simpl; [reflexivity|]. rewrite IH. reflexivity.
 Qed.
 Lemma sel_names_wire : forall v l, sel_names (wire_attrs v l) = sel_names l.
-Proof. intros. apply (flat_map_wire (fun x => match x with TName n _ => [n] | _ => [] end)). Qed.
+Proof. intros. apply (flat_map_wire _ (fun x => match x with TName n _ => [n] | _ => [] end)). Qed.
 Lemma sel_typed_names_wire : forall v l, sel_typed_names (wire_attrs v l) = sel_typed_names l.
-Proof. intros. apply (flat_map_wire (fun x => match x with TName n t => [(n, t)] | _ => [] end)). Qed.
+Proof. intros. apply (flat_map_wire _ (fun x => match x with TName n t => [(n, t)] | _ => [] end)). Qed.
 Lemma sel_groups_wire : forall v l, sel_groups (wire_attrs v l) = sel_groups l.
-Proof. intros. apply (flat_map_wire (fun x => match x with TGroup n => [n] | _ => [] end)). Qed.
+Proof. intros. apply (flat_map_wire _ (fun x => match x with TGroup n => [n] | _ => [] end)). Qed.
 Lemma sel_asi_wire : forall v l, sel_asi (wire_attrs v l) = sel_asi l.
-Proof. intros. apply (flat_map_wire (fun x => match x with TAsi a b => [(a, b)] | _ => [] end)). Qed.
+Proof. intros. apply (flat_map_wire _ (fun x => match x with TAsi a b => [(a, b)] | _ => [] end)). Qed.
 Lemma sel_mask_wire : forall v l, sel_mask (wire_attrs v l) = sel_mask l.
-Proof. intros. unfold sel_mask. f_equal. apply (flat_map_wire (fun x => match x with TMask z => [z] | _ => [] end)). Qed.
+Proof. intros. unfold sel_mask. f_equal. apply (flat_map_wire _ (fun x => match x with TMask z => [z] | _ => [] end)). Qed.
 Lemma sel_policy_wire : forall v l, sel_policy (wire_attrs v l) = sel_policy l.
-Proof. intros. unfold sel_policy. f_equal. apply (flat_map_wire (fun x => match x with TPolicy z => [z] | _ => [] end)). Qed.
+Proof. intros. unfold sel_policy. f_equal. apply (flat_map_wire _ (fun x => match x with TPolicy z => [z] | _ => [] end)). Qed.
 Lemma sel_sens_wire : forall v l, sel_sens (wire_attrs v l) = sel_sens l.
-Proof. intros. unfold sel_sens. f_equal. apply (flat_map_wire (fun x => match x with TSens z => [z] | _ => [] end)). Qed.
+Proof. intros. unfold sel_sens. f_equal. apply (flat_map_wire _ (fun x => match x with TSens z => [z] | _ => [] end)). Qed.
 
 (* hypotheses that exclude exactly the known finding about names, and values outside the attribute's domain *)
 Definition names_untyped (l : list tattr) : Prop := Forall (fun nt => snd nt = NT_TEXT) (sel_typed_names l).
@@ -147,30 +147,28 @@ Proof.
   destruct s as [c kb|kb sp|ct vv|dt kb|ot vv]; simpl secret_class in *.
   - assert (K : is_key c = true) by (simpl in C; destruct c; try discriminate C; reflexivity).
     assert (Cr : is_crypto c = true) by (destruct c; try discriminate K; reflexivity).
-    rewrite K in *. rewrite Cr. destruct Alg as [Al Le]. simpl in R3, R4, R12.
-    rewrite K in R3, R4, R12. rewrite R3, R4. rewrite <- Al, <- Le.
-    assert (PS : p_sub p = None) by (destruct Sh as (_ & S2 & _); rewrite I1 in S2; apply S2; exact K).
-    rewrite PS. rewrite (mask_value l Hm).
+    rewrite K in *. rewrite ?Cr. destruct Alg as [Al Le]. rewrite R3, R4, Al, Le.
+    rewrite (mask_value l Hm).
     replace (sql_enum_in (sql_enum_out (Some ST_PRE_ACTIVE))) with (Some ST_PRE_ACTIVE) by reflexivity.
     destruct (sel_policy l); reflexivity.
-  - simpl in *. destruct Alg as [Al Le]. rewrite R3, R4, <- Al, <- Le.
-    assert (PS : p_sub p = None) by (destruct Sh as (_ & S2 & _); rewrite I1 in S2; apply S2; reflexivity).
-    rewrite PS. rewrite (mask_value l Hm).
+  - change (is_key CSplit) with true in *. change (is_crypto CSplit) with true in *. cbv iota in R3, R4, Alg |- *.
+    destruct Alg as [Al Le]. rewrite R3, R4, Al, Le.
+    rewrite (mask_value l Hm).
     replace (sql_enum_in (sql_enum_out (Some ST_PRE_ACTIVE))) with (Some ST_PRE_ACTIVE) by reflexivity.
     destruct (sel_policy l); reflexivity.
-  - simpl in *. rewrite R12, Sub. rewrite (mask_value l Hm).
+  - change (is_key CCert) with false in *. change (is_crypto CCert) with true in *. cbv iota in R12 |- *.
+    rewrite R12, Sub. rewrite (mask_value l Hm).
     replace (sql_enum_in (sql_enum_out (Some ST_PRE_ACTIVE))) with (Some ST_PRE_ACTIVE) by reflexivity.
     destruct (sel_policy l); reflexivity.
-  - simpl in *. rewrite (mask_value l Hm).
+  - change (is_key CSecret) with false in *. change (is_crypto CSecret) with true in *. cbv iota.
+    rewrite (mask_value l Hm).
     replace (sql_enum_in (sql_enum_out (Some ST_PRE_ACTIVE))) with (Some ST_PRE_ACTIVE) by reflexivity.
     replace (a_applicable A_CTYPE CSecret) with false by reflexivity. rewrite !andb_false_r.
     destruct (sel_policy l); reflexivity.
-  - simpl in *.
+  - change (is_key COpaque) with false in *. change (is_crypto COpaque) with false in *. cbv iota.
     replace (a_applicable A_CTYPE COpaque) with false by reflexivity.
     replace (a_applicable A_MASK COpaque) with false by reflexivity.
     replace (a_applicable A_STATE COpaque) with false by reflexivity.
-    replace (a_applicable A_ALG COpaque) with false by reflexivity.
-    replace (a_applicable A_LEN COpaque) with false by reflexivity.
     rewrite !andb_false_r.
     destruct (sel_policy l); reflexivity.
 Qed.
